@@ -1,11 +1,13 @@
 #!/usr/bin/env python3
 """Assemble /verif/seeded/<ID>-<X>/ from a sub-agent's output directory and the confirmation log (one-off helper)."""
 import json, os, re, shutil, subprocess, sys
-OUTS = {"A": "/tmp/seed/out", "B": "/tmp/seed/out", "C": "/tmp/seed/out2", "D": "/tmp/seed/out2", "E": "/tmp/seed/out4", "F": "/tmp/seed/out4"}
+OUTS = {"A": "/tmp/seed/out", "B": "/tmp/seed/out", "C": "/tmp/seed/out2", "D": "/tmp/seed/out2", "E": "/tmp/seed/out4", "F": "/tmp/seed/out4",
+        "G": "/tmp/seed/out5", "H": "/tmp/seed/out5"}
 # round 4 (E = a slip hidden inside a restructuring, F = a small edit in a helper / caller / sibling): files are named A / B in out4
 SRC_LETTER = {"E": "A", "F": "B"}
 LOGS = ["/tmp/seed/confirm_batch1.log", "/tmp/seed/confirm_batch2.log", "/tmp/seed/confirm_round2.log"]
 LOG4 = "/tmp/seed/confirm_round4.log"
+LOG5 = "/tmp/seed/confirm_round5.log"   # round 5: G = slip hidden in a restructuring of the least obvious clause, H = small edit in option / default / cache / dtype handling
 MISSED = {"C01-B": "vectorised gather: needed the column-wise symbolic evaluation of the coordinate maps (C01.b)",
           "C10-B": "needed C10.f (results not shared with the object) and getattr aliasing in the effect engine",
           "C04-A": "needed C04.g (matrix version / fresh solver)", "C04-B": "needed C04.f (snapshot refreshed per iteration)",
@@ -47,7 +49,14 @@ if os.path.exists(LOG4):
         m = re.match(r"(C\d\d) ([AB]) (.*)", line.strip())
         if m:
             conf[(m.group(1), {"A": "E", "B": "F"}[m.group(2)])] = m.group(3)
+if os.path.exists(LOG5):
+    for line in open(LOG5):
+        m = re.match(r"(C\d\d) ([GH]) (.*)", line.strip())
+        if m:
+            conf[(m.group(1), m.group(2))] = m.group(3)
 ROUND4_MISSED = {}
+if os.path.exists("/verif/tools/round5_first_run.json"):
+    MISSED.update(json.load(open("/verif/tools/round5_first_run.json")))
 if os.path.exists("/verif/tools/round4_first_run.json"):
     ROUND4_MISSED = json.load(open("/verif/tools/round4_first_run.json"))
 done = []
@@ -62,7 +71,7 @@ for (pid, x), line in sorted(conf.items()):
     shutil.copy(f"{src}/demo_{sx}.py", f"{dst}/demo.py")
     notes = open(f"{src}/notes.md").read()
     secs = re.split(r"(?m)^## ", notes)
-    sec = next((s for s in secs[1:] if re.match(rf"(Change |Patch |Seed )?{sx}\b", s)), None) or (secs[1 + "ABCDEF".index(x) % 2] if len(secs) > 2 else notes)
+    sec = next((s for s in secs[1:] if re.match(rf"(Change |Patch |Seed )?{sx}\b", s)), None) or (secs[1 + "ABCDEFGH".index(x) % 2] if len(secs) > 2 else notes)
     open(f"{dst}/notes.md", "w").write("## " + sec)
     r = subprocess.run(["/verif/tools/try_patch.py", f"{dst}/patch.diff", pid], capture_output=True, text=True)
     first = next((l.strip() for l in r.stdout.splitlines() if "FINDING" in l), "")
